@@ -206,4 +206,31 @@ theorem d5_witness : (∃ s', runOracle bellProg bellDraws = some (.ok (s', [2])
   ⟨let ⟨s', h⟩ := run_of_check d5_model_stores_2
    ⟨s', h, supportedB_sound suppBinB_sound suppCatB_sound _ _ d5_supported⟩, d5_born_zero⟩
 
+/-! ### D14: `measure_all` with a repeated classical target (vector backend) -/
+
+/-- 2 qubits in `|10⟩`, both measured into classical bit 0 -/
+def d14Ops : List (COp Empty) := [.gate .X [0], .measureAll [0, 0] .Z]
+
+def d14Prog : Prog Q8 (VecState Q8 × List Nat) :=
+  execOps (vecBackend (α := Q8) (P := Empty)) (VecState.new 2 1) [0] d14Ops
+
+/-- the only possible draw: basis state `|10⟩` (index 2), weight 1 -/
+def d14Draws : List Draw := [.cat [(2, 1)]]
+
+theorem d14_model_stores_1 : checkRun d14Prog d14Draws [1] = true := by decide +kernel
+theorem d14_supported : supportedB suppBinB suppCatB d14Prog d14Draws = true := by decide +kernel
+theorem d14_no_candidate : Spec.replay (P := Empty) 2 nonzeroQ8 d14Ops [0, 1] [(ket0 2, 0)] = [] := by decide +kernel
+/-- the value the sequential reading "qubit 1 is written last" predicts, 0, is not what is stored either -/
+theorem d14_not_nodup : ¬ OpOK (COp.measureAll (P := Empty) [0, 0] .Z) := by
+  show ¬ List.Nodup [0, 0]; decide
+
+/-- **D14**: the code ORs the outcomes of the qubits sharing a target: bit 0 holds `1 | 0 = 1`, and the stored
+word has no candidate in the reference semantics (which reads bit 0 as the outcome of BOTH qubits) -/
+theorem d14_witness : (∃ s', runOracle d14Prog d14Draws = some (.ok (s', [1]), []) ∧
+      Supported (suppBin nzQ8) (suppCat nzQ8) d14Prog d14Draws) ∧
+    Spec.replay (P := Empty) 2 nonzeroQ8 d14Ops [0, 1] [(ket0 2, 0)] = [] ∧
+    ¬ OpOK (COp.measureAll (P := Empty) [0, 0] .Z) :=
+  ⟨let ⟨s', h⟩ := run_of_check d14_model_stores_1
+   ⟨s', h, supportedB_sound suppBinB_sound suppCatB_sound _ _ d14_supported⟩, d14_no_candidate, d14_not_nodup⟩
+
 end Q1t.Sim.Demo
